@@ -44,7 +44,14 @@ TDots == T("dots", <<
     D(5, R, "..."), F(6, 5, "x"), F(7, R, "x"), D(8, 5, "...."), F(9, 8, "y"), L(10, R, "l3", <<"...", "....">>), L(11, 5, "up3", <<"..", "...", "x">>)
   >>, 3)
 
-Catalogue == <<TBasic, TEscape, TChain, TLoop2, TSlash, TFifo, TDots>>
+\* an unprivileged caller: priv/ is a directory it may read but not search (rwxr--r-- of somebody else)
+DX(id, p, n) == [id |-> id, p |-> p, n |-> n, k |-> "dir", b |-> <<>>, nx |-> TRUE]
+TPerm == T("perm", <<
+    D(5, R, "pub"), F(6, 5, "f"), DX(7, R, "priv"), F(8, 7, "f"), D(9, 7, "sub"), L(10, R, "lp", <<"priv", "f">>),
+    L(11, R, "lt", <<"priv", "sub", "..", "..", "pub", "f">>), L(12, 5, "up", <<"..", "priv">>), L(13, 7, "out", <<"..", "pub">>)
+  >>, 3)
+
+Catalogue == <<TBasic, TEscape, TChain, TLoop2, TSlash, TFifo, TDots, TPerm>>
 
 \* ---- generated family: every tree with two nodes below the root ----
 GenBodies == {<<"a">>, <<"b">>, <<"..">>, <<"..", "b">>, <<"", "a">>, <<"">> \o <<"..", "..", "out">>, <<"a", "">>, <<".">>, <<"b", "..", "a">>}
